@@ -1128,6 +1128,14 @@ class Engine:
       if base.elts is not None and isinstance(k, int) and \
               not isinstance(k, bool) and -len(base.elts) <= k < len(base.elts):
         return base.elts[k]
+      if base.elts is not None and base.elts and k is NOCONST and \
+              base.ty != 'set' and idx[0][1].elts is None:
+        # element of a literal tuple / list at an unknown position: any of
+        # its elements
+        r = None
+        for x in base.elts:
+          r = self.join_v(r, x)
+        return r
     if len(idx) == 1 and idx[0][0] == 'slice' and base.elts is not None:
       lo = idx[0][1].const() if idx[0][1] is not None else None
       hi = idx[0][2].const() if idx[0][2] is not None else None
